@@ -137,7 +137,7 @@ class Run:
             print('   violation class x%d: %s' % (n, kk))
         for key, msg, path in self.violations[:25]:
             print('VIOLATION property=%s replay=%s' % (self.pid, path))
-            print('   ' + msg[:600])
+            print('   ' + msg[:260])
         print('%s tier=%s seed=%d: states=%d replayed=%d evaluations=%d nontrivial=%d violations=%d known=%d max_dev=%.3g wall=%.1fs' % (
             self.pid, self.tier, self.seed, self.states, self.replayed, self.evaluations, dn, len(self.violations),
             sum(v['count'] for v in self.known_hits.values()), self.max_dev, wall))
